@@ -234,6 +234,7 @@ func init() {
 				add("didreg", 4, map[string]string{"ops": "800"})
 				add("authz", 2, map[string]string{"rounds": "1", "relayers": "2"})
 				add("actor", 2, map[string]string{"rounds": "3"})
+				add("genesis", 10, map[string]string{"profile": "renewheavy", "ops": "60", "cont": "60", "drain": "1"})
 				for _, m := range []string{"migrated", "debt-expire", "debt-release", "queued", "afterroll", "shorter", "longer", "term-reassign", "fp-reassign", "multiversion-migrate", "unaligned"} {
 					add("renewals", 3, map[string]string{"mode": m})
 				}
@@ -247,6 +248,7 @@ func init() {
 				add("renewals", 1, map[string]string{"mode": "migrated"})
 				add("renewals", 1, map[string]string{"mode": "debt-expire"})
 				add("renewals", 1, map[string]string{"mode": "queued"})
+				add("genesis", 1, map[string]string{"profile": "mixed", "ops": "25", "cont": "30", "recipe": "1"})
 			}
 			return jobs
 		},
